@@ -186,7 +186,7 @@ PROP = {
     "floors": {"quick": {"cases": 2400, "distinct_nontrivial": 4700},
                "thorough": {"cases": 30000, "distinct_nontrivial": 5000, "clauses": {"memcheck:accepted-side-returns": 300, "memcheck:rejected-side-exits-with-diagnostic": 500}}},
     "exhaustive": {"quick": ["the guard catalogue (every entry run in both flavours)"], "thorough": ["the guard catalogue (every entry run in both flavours)"]},
-    "technique": "runtime monitoring: one forked child per request under gcc ASan+UBSan, process-outcome oracle (exit status, diagnostic bytes, sanitizer reports); thorough tier: the catalogue again under valgrind memcheck",
+    "technique": "runtime monitoring: one forked child per request under gcc ASan+UBSan, process-outcome oracle (exit status, diagnostic bytes, sanitizer reports); thorough tier: coverage-guided API-sequence fuzzing (clang libFuzzer + ASan + UBSan, 5e6 inputs, exit interposed) and the catalogue again under valgrind memcheck",
     "level_text": "Every catalogued guard (both sides) and thousands of random requests around 13 guard families were executed against the real "
                   "library in an ASan+UBSan build and an -O2 build; each outcome (returned / exit(EXIT_FAILURE)+diagnostic / other exit / signal / sanitizer report) "
                   "was classified by the parent. Exploration: it shows the property on the requests run, not on all inputs.",
@@ -196,3 +196,4 @@ PROP = {
                                  "ASan/UBSan red zones see adjacent overruns only"],
 }
 PROP["level_text"] += ' The catalogue has grown to about 1300 requests: guards after call histories, after shape modifiers (Resize, assignment of another size), on tables scaled by 2^-43..2^43 and at 1e-3/1e-6/1e-9 of the extrapolation tolerance.'
+PROP["level_text"] += " Thorough tier: 5e6 coverage-guided API sequences (libFuzzer, clang ASan+UBSan) on pools of Vector/Matrix/Interpolation objects and the guarded free functions, judged for memory safety and failure status only."
